@@ -630,6 +630,19 @@ def _c_case(draw):
                                          "pfile", case["rname"] + "/top.txt", "../etc/a.conf"]))
         return "/".join(x for x in [d, l["name"], rest] if x)
 
+    def link_dotdot_route():
+        # through a link and then up again: the kernel resolves the link first, so "<link>/../x" is a
+        # child of the link *target's* parent, whatever the lexically collapsed path looks like
+        if not case["links"]:
+            return dotdot_route()
+        l = draw(st.sampled_from(case["links"]))
+        d = IN_DIRS[l["dir"]]
+        up = "/".join([".."] * draw(st.sampled_from([1, 1, 1, 2])))
+        rest = draw(st.sampled_from(["secret", "secret", "etc/a.conf", "a.conf", "pfile", "top.txt",
+                                     case["rname"] + "/top.txt", "m.log"] +
+                                    [case["rname"] + x + "/secret" for x in case["sibs"]]))
+        return "/".join(x for x in [d, l["name"], up, rest] if x)
+
     def random_route():
         vocab = ["etc", "sub", "var", "a.conf", "c.conf", "m.log", "top.txt", "secret", "pfile", "..", "..",
                  ".", "other", "outside", "w", "p", case["rname"]] + \
@@ -638,7 +651,7 @@ def _c_case(draw):
 
     def path():
         p = draw(st.sampled_from([dotdot_route, dotdot_route, dotdot_route, link_route, link_route, link_route,
-                                  random_route]))()
+                                  link_dotdot_route, link_dotdot_route, random_route]))()
         p = _noise(draw, p)
         if draw(st.booleans()):
             p = "/" + p
